@@ -99,15 +99,15 @@ fn case_fn(case: &mut Case, base: &Path) -> CaseResult {
             let (rel, text) = gp.schema_files[i].clone();
             match which {
                 0 => {
-                    gp.schema_files[i].1 = format!("{text}extend type {} {{ badField: NoSuchType }}\n", gp.gs.schema.root(OpType::Query).unwrap());
+                    gp.schema_files[i].1 = format!("{text}extend type {} {{ badField{i}: NoSuchType{i} }}\n", gp.gs.schema.root(OpType::Query).unwrap());
                     injected.push(Injected { file: rel, kind: "schema", stage: Stage::Check, what: "field of unknown type" });
                 }
                 1 => {
-                    gp.schema_files[i].1 = format!("{text}scalar DuplicatedScalar\nscalar DuplicatedScalar\n");
+                    gp.schema_files[i].1 = format!("{text}scalar DuplicatedScalar{i}\nscalar DuplicatedScalar{i}\n");
                     injected.push(Injected { file: rel, kind: "schema", stage: Stage::Check, what: "duplicate type definition" });
                 }
                 2 => {
-                    gp.schema_files[i].1 = format!("{text}scalar WithUnknownDirective @noSuchDirective\n");
+                    gp.schema_files[i].1 = format!("{text}scalar WithUnknownDirective{i} @noSuchDirective\n");
                     injected.push(Injected { file: rel, kind: "schema", stage: Stage::Check, what: "unknown directive" });
                 }
                 _ => {
@@ -129,7 +129,7 @@ fn case_fn(case: &mut Case, base: &Path) -> CaseResult {
                 continue;
             }
             let rel = gp.op_files[i].0.clone();
-            let which = case.ch.below(7);
+            let which = case.ch.below(10);
             let mut doc = gp.op_file_models[i].clone();
             let has_op = doc.iter().any(|d| matches!(d, MExecDef::Op(_)));
             match which {
@@ -202,6 +202,34 @@ fn case_fn(case: &mut Case, base: &Path) -> CaseResult {
                     if let Some(t) = text.strip_suffix('}') {
                         gp.op_files[i].1 = format!("{t}\n");
                         injected.push(Injected { file: rel, kind: "operation", stage: Stage::Command, what: "unclosed brace at end of file" });
+                    }
+                }
+                7 | 8 => {
+                    // unknown field inside a fragment definition (possibly one that other files import):
+                    // the diagnostic belongs to the file that holds the fragment
+                    let Some(fr) = doc.iter_mut().find_map(|d| if let MExecDef::Frag(f) = d { Some(f) } else { None }) else { continue };
+                    fr.sel.push(plain_field("no_such_field_in_fragment"));
+                    gp.op_files[i].1 = canon_op(&doc);
+                    gp.op_file_models[i] = doc;
+                    injected.push(Injected { file: rel, kind: "operation", stage: Stage::Check, what: "unknown field in a fragment" });
+                }
+                9 => {
+                    // the same faulty operation as the first line of two operation files: two
+                    // diagnostics with equal message, line and column in different files
+                    if gp.op_files.len() < 2 {
+                        continue;
+                    }
+                    let j = (i + 1 + case.ch.below(gp.op_files.len() - 1)) % gp.op_files.len();
+                    if injected.iter().any(|x| x.file == gp.op_files[j].0) {
+                        continue;
+                    }
+                    for (k, nm) in [(i, "TwinFaultA"), (j, "TwinFaultB")] {
+                        let line = format!("query {nm} {{ no_such_twin_field }}\n");
+                        gp.op_files[k].1 = format!("{line}{}", gp.op_files[k].1);
+                        let mut m = vec![MExecDef::Op(MOperation { op: OpType::Query, name: Some(nm.into()), vars: vec![], directives: vec![], sel: vec![plain_field("no_such_twin_field")], shorthand: false })];
+                        m.extend(gp.op_file_models[k].iter().cloned());
+                        gp.op_file_models[k] = m;
+                        injected.push(Injected { file: gp.op_files[k].0.clone(), kind: "operation", stage: Stage::Check, what: "unknown field (same text at the same position in two files)" });
                     }
                 }
                 _ => continue,
@@ -447,7 +475,7 @@ pub fn run(env: &Env) -> i32 {
         let b = base.clone();
         rep.probe("C18-eof-syntax-error-unlocated", move || fixed_probe(&b, "type Query { a: Int }\n", "query Q { a\n", "json", "q.graphql"));
     }
-    rep.campaign("runs", env.cases(600, 10_000), (600, 2500), move |case| case_fn(case, &b2));
+    rep.campaign("runs", env.cases(4_000, 100_000), (600, 2500), move |case| case_fn(case, &b2));
     let _ = std::fs::remove_dir_all(&base);
     rep.finish()
 }
